@@ -106,8 +106,29 @@ def l_hdr(F, R):
     pushes = [t for t in it.trace if t[0] == "push"]
     R.check(len(pushes) == 1 and pushes[0][1] == "control_byte", "L-hdr", "control-byte",
             "encode_packet pushes %s" % [p[1] for p in pushes], where=fid)
-    # S-refuse: total_len(..) is under `?` (its Err leaves the function) and precedes the first write
+    # nothing else touches the buffer: every use of the Vec<u8> under construction is one of the three writes (or reads its length)
     b = nbody(F, fid)
+    allowed = {"push", "write_var_int", "encode", "len", "with_capacity", "new", "capacity", "is_empty"}
+    work, done = [fid], set()
+    while work:
+        cur = work.pop()
+        if cur in done or cur not in F.fns or not F.fns[cur].get("thir"):
+            continue
+        done.add(cur)
+        for n in walk_all(nbody(F, cur)):
+            if n.get("k") == "Call" and n["args"]:
+                touches = any("alloc::vec::Vec<u8>" in ((a.get("ty") or "") + (strip(a).get("ty") or "")) for a in n["args"])
+                nm = n["fn"].get("name")
+                callee = n["fn"].get("res") or n["fn"].get("def")
+                if touches and callee in F.fns and callee != "common::utils::write_var_int" and F.fns[callee].get("thir") and \
+                        not (n["fn"].get("trait") or "").endswith("Encodable"):
+                    work.append(callee)         # a helper of the crate that receives the buffer: the same rule applies inside it
+                    continue
+                if touches and nm not in allowed and not any(x.split("::")[-1].startswith("debug_assert") for x in (n.get("exp") or [])):
+                    R.fail("L-hdr", "buffer-use/%s" % nm,
+                           "%s applies `%s` to the packet buffer: besides pushing the control byte, writing the remaining length and "
+                           "letting the body encode itself, nothing may modify or re-window the buffer" % (cur, n["fn"].get("def") or nm), where=loc(n))
+    # S-refuse: total_len(..) is under `?` (its Err leaves the function) and precedes the first write
     tl_try = False
     for n in walk_all(b):
         if n.get("k") == "Try":
